@@ -71,6 +71,10 @@ def run(ctx) -> None:
     fa.check_chunk(ctx, "C14.chunk", [fa.FVA, ("cobra.flux_analysis.deletion", "_multi_deletion")])
     fa.check_seed(ctx, "C14.seed")
     fa.check_shared_state(ctx, "C14.shared")
+    from . import poolform
+
+    ctx.rule("C14.pool", "evaluation: the process pool wrapper starts every worker with initializer(*initargs) as given, on every platform, and cleans up on every exit", floor=1)
+    ctx.guard(poolform.check_pool, ctx, "C14.pool")
     p = ctx.prog
     fns = [p.func(*fa.FVA), p.func("cobra.flux_analysis.variability", "find_blocked_reactions"), p.func("cobra.flux_analysis.deletion", "_multi_deletion"), p.func("cobra.sampling.optgp", "OptGPSampler.__init__")]
     check_none_defaults(ctx, "C14.nonedefault", fns)
